@@ -1015,45 +1015,46 @@ Section Steps.
   Local Notation estep := (eng_step Rops PI cell mass).
   Local Notation erun := (eng_run Rops PI cell mass).
 
-  Lemma step_same cv s pos F fb : cv_samestep cv = true ->
-    o_ft (snd (step cv s pos F fb)) = proj pos cv F + (if cv_hide cv then 0 else fjf pos cv).
+  Lemma step_same cv s pos F fb ap : cv_samestep cv = true ->
+    o_ft (snd (step cv s pos F fb ap)) = proj pos cv F + (if cv_hide cv then 0 else fjf pos cv).
   Proof.
     intros H. unfold cv_step, adds_fj. rewrite H. cbn [snd o_ft andb orb negb].
     destruct (cv_hide cv), (cv_subtract cv); cbn [andb orb negb]; rs; reflexivity.
   Qed.
-  Lemma step_lag cv s pos F fb : cv_samestep cv = false -> (0 < st_rel s)%nat ->
-    o_ft (snd (step cv s pos F fb)) =
-      proj (st_prev_pos s) cv F + (if adds_fj cv then st_fj s else 0) - (if cv_subtract cv then st_fold s else 0).
+  Lemma step_lag cv s pos F fb ap : cv_samestep cv = false -> (0 < st_rel s)%nat ->
+    o_ft (snd (step cv s pos F fb ap)) =
+      proj (st_prev_pos s) cv F + (if adds_fj cv (st_comp s) then st_fj s else 0) - (if cv_subtract cv then st_fold s else 0).
   Proof.
     intros H Hr. unfold cv_step. rewrite H. apply Nat.ltb_lt in Hr. rewrite Hr. cbn [snd o_ft andb orb negb].
     destruct (cv_subtract cv); cbn [andb orb negb]; rs; ring.
   Qed.
-  Lemma step_first_lag cv s pos F fb : cv_samestep cv = false -> st_rel s = 0%nat ->
-    o_ft (snd (step cv s pos F fb)) = st_ft s.
+  Lemma step_first_lag cv s pos F fb ap : cv_samestep cv = false -> st_rel s = 0%nat ->
+    o_ft (snd (step cv s pos F fb ap)) = st_ft s.
   Proof.
     intros H Hr. unfold cv_step. rewrite H, Hr. cbn [snd o_ft andb orb negb Nat.ltb Nat.leb].
     destruct (cv_subtract cv); reflexivity.
   Qed.
-  Lemma step_state cv s pos F fb :
-    let r := step cv s pos F fb in
-    let f := applied_force Rops cv fb (fjf pos cv) in
+  Lemma step_state cv s pos F fb ap :
+    let r := step cv s pos F fb ap in
+    let f := applied_force Rops cv ap fb (fjf pos cv) in
     st_prev_pos (fst r) = pos /\ st_fj (fst r) = fjf pos cv /\ st_rel (fst r) = S (st_rel s) /\
     st_fold (fst r) = (if cv_subtract cv then f else st_fold s) /\
-    o_f (snd r) = f /\ o_forces (snd r) = capply pos cv f.
-  Proof. unfold cv_step. cbn [fst snd st_prev_pos st_fj st_rel st_fold o_f o_forces]. repeat split; reflexivity. Qed.
+    o_f (snd r) = f /\ o_forces (snd r) = (if ap then capply pos cv f else fzero Rops) /\
+    st_comp (fst r) = (cv_hide cv && ap)%bool.
+  Proof. unfold cv_step. cbn [fst snd st_prev_pos st_fj st_rel st_fold o_f o_forces st_comp]. repeat split; reflexivity. Qed.
 
   Lemma estep_eq cv inc s i :
     estep cv inc s i =
-      (let r := step cv (es_cv s) (e_pos i) (if cv_samestep cv then e_force i else es_prev_total s) (e_fb i) in
+      (let r := step cv (es_cv s) (e_pos i) (if cv_samestep cv then e_force i else es_prev_total s) (e_fb i) (e_apply i) in
        (mkEstate (fst r) (if inc then fadd Rops (e_force i) (o_forces (snd r)) else e_force i), snd r)).
-  Proof. unfold eng_step. destruct (cv_step _ _ _ _ _ _ _ _) as [cs out]. reflexivity. Qed.
+  Proof. unfold eng_step. destruct (cv_step _ _ _ _ _ _ _ _ _) as [cs out]. reflexivity. Qed.
 
   (* what the engine delivers in the lagged convention for the step of input i *)
-  Definition own_force (cv : colvar) (i : einput) : R := applied_force Rops cv (e_fb i) (fjf (e_pos i) cv).
+  Definition own_force (cv : colvar) (i : einput) : R := applied_force Rops cv (e_apply i) (e_fb i) (fjf (e_pos i) cv).
   Definition exerted (cv : colvar) (inc : bool) (i : einput) : RF :=
-    if inc then fadd Rops (e_force i) (capply (e_pos i) cv (own_force cv i)) else e_force i.
+    if inc then fadd Rops (e_force i) (if e_apply i then capply (e_pos i) cv (own_force cv i) else fzero Rops) else e_force i.
   Definition lag_report (cv : colvar) (inc : bool) (i : einput) : R :=
-    proj (e_pos i) cv (exerted cv inc i) + (if adds_fj cv then fjf (e_pos i) cv else 0)
+    proj (e_pos i) cv (exerted cv inc i) + (if adds_fj cv (cv_hide cv && e_apply i) then fjf (e_pos i) cv else 0)
     - (if cv_subtract cv then own_force cv i else 0).
   Definition same_report (cv : colvar) (i : einput) : R :=
     proj (e_pos i) cv (e_force i) + (if cv_hide cv then 0 else fjf (e_pos i) cv).
@@ -1063,11 +1064,11 @@ Section Steps.
   Proof.
     intros H. rewrite (estep_eq cv inc _ i2). cbv zeta. cbn [snd]. rewrite H.
     rewrite (estep_eq cv inc s0 i1). cbv zeta. cbn [fst es_cv es_prev_total]. rewrite H.
-    set (r1 := step cv (es_cv s0) (e_pos i1) (es_prev_total s0) (e_fb i1)).
-    pose proof (step_state cv (es_cv s0) (e_pos i1) (es_prev_total s0) (e_fb i1)) as St. cbv zeta in St. fold r1 in St.
-    destruct St as (Sp & Sj & Sr & Sf & So & Sc).
+    set (r1 := step cv (es_cv s0) (e_pos i1) (es_prev_total s0) (e_fb i1) (e_apply i1)).
+    pose proof (step_state cv (es_cv s0) (e_pos i1) (es_prev_total s0) (e_fb i1) (e_apply i1)) as St. cbv zeta in St. fold r1 in St.
+    destruct St as (Sp & Sj & Sr & Sf & So & Sc & Sm).
     rewrite step_lag by (try exact H; rewrite Sr; lia).
-    rewrite Sp, Sj, Sf, Sc. unfold lag_report, exerted, own_force.
+    rewrite Sp, Sj, Sf, Sc, Sm. unfold lag_report, exerted, own_force.
     destruct inc, (cv_subtract cv); reflexivity.
   Qed.
   Lemma one_step_same cv inc s i : cv_samestep cv = true -> o_ft (snd (estep cv inc s i)) = same_report cv i.
@@ -1124,10 +1125,16 @@ Section Steps.
     ForallOrdPairs (fun p q => atoms_disj (fst p) (fst q)) (cv_comps cv) /\
     cv_sqnorm Rops cv <> 0.
 
-  Lemma proj_exerted cv i : cv_inv_ok (e_pos i) cv ->
+  Lemma proj_exerted cv i : e_apply i = true -> cv_inv_ok (e_pos i) cv ->
     proj (e_pos i) cv (exerted cv true i) = proj (e_pos i) cv (e_force i) + own_force cv i.
   Proof.
-    intros (Hi & Hd & Hs). unfold exerted. rewrite cv_proj_fadd, cv_inverse by assumption. reflexivity.
+    intros Ha (Hi & Hd & Hs). unfold exerted. rewrite Ha, cv_proj_fadd, cv_inverse by assumption. reflexivity.
+  Qed.
+  (* no bias applies a force at the step: nothing of Colvars is in the engine's total force *)
+  Lemma proj_exerted_off cv inc i : e_apply i = false -> proj (e_pos i) cv (exerted cv inc i) = proj (e_pos i) cv (e_force i).
+  Proof.
+    intros Ha. unfold exerted. rewrite Ha. destruct inc; [|reflexivity].
+    apply cv_proj_local. intros a _. unfold fadd, fzero. fold v0. apply vadd_0_r.
   Qed.
   Lemma proj_vanish cv pos (F : RF) : (forall a, In a (cv_atoms cv) -> F a = v0) -> proj pos cv F = 0.
   Proof.
@@ -1166,37 +1173,51 @@ Section Final.
   (* lagged convention, the engine hands back exactly what Colvars applied (its own force is zero on the
      variable's atoms): the report of the next step *)
   Lemma inverse_lagged cv pre s i1 i2 :
-    cv_samestep cv = false -> cv_inv_ok cell mass (e_pos i1) cv -> (forall a, In a (cv_atoms cv) -> e_force i1 a = v0) ->
+    cv_samestep cv = false -> e_apply i1 = true -> cv_inv_ok cell mass (e_pos i1) cv ->
+    (forall a, In a (cv_atoms cv) -> e_force i1 a = v0) ->
     last_ft (snd (erun cv true s (pre ++ [i1; i2]))) =
-      own_force cell mass cv i1 + (if adds_fj cv then fjf (e_pos i1) cv else 0) - (if cv_subtract cv then own_force cell mass cv i1 else 0).
+      own_force cell mass cv i1 + (if adds_fj cv (cv_hide cv) then fjf (e_pos i1) cv else 0)
+      - (if cv_subtract cv then own_force cell mass cv i1 else 0).
   Proof.
-    intros H Hok Hz. rewrite history_lag by exact H. unfold lag_report.
-    rewrite proj_exerted by exact Hok. rewrite (proj_vanish cell mass cv (e_pos i1) (e_force i1) Hz). ring.
+    intros H Ha Hok Hz. rewrite history_lag by exact H. unfold lag_report.
+    rewrite proj_exerted by assumption. rewrite (proj_vanish cell mass cv (e_pos i1) (e_force i1) Hz).
+    rewrite Ha, andb_true_r. ring.
   Qed.
   Lemma inverse_lagged_jacobian cv pre s i1 i2 :
-    cv_samestep cv = false -> cv_hide cv = false -> cv_subtract cv = false ->
+    cv_samestep cv = false -> e_apply i1 = true -> cv_hide cv = false -> cv_subtract cv = false ->
     cv_inv_ok cell mass (e_pos i1) cv -> (forall a, In a (cv_atoms cv) -> e_force i1 a = v0) ->
     last_ft (snd (erun cv true s (pre ++ [i1; i2]))) = e_fb i1 + fjf (e_pos i1) cv.
   Proof.
-    intros H Hh Hs Hok Hz. rewrite inverse_lagged by assumption.
+    intros H Ha Hh Hs Hok Hz. rewrite inverse_lagged by assumption.
     unfold own_force, applied_force, adds_fj. rewrite Hh, Hs. cbn [andb negb]. ring.
   Qed.
   Lemma inverse_lagged_hidden cv pre s i1 i2 :
-    cv_samestep cv = false -> cv_hide cv = true -> cv_subtract cv = false ->
+    cv_samestep cv = false -> e_apply i1 = true -> cv_hide cv = true -> cv_subtract cv = false ->
     cv_inv_ok cell mass (e_pos i1) cv -> (forall a, In a (cv_atoms cv) -> e_force i1 a = v0) ->
     last_ft (snd (erun cv true s (pre ++ [i1; i2]))) = e_fb i1.
   Proof.
-    intros H Hh Hs Hok Hz. rewrite inverse_lagged by assumption.
-    unfold own_force, applied_force, adds_fj. rewrite Hh, Hs, H. cbn [andb orb negb]. rs. ring.
+    intros H Ha Hh Hs Hok Hz. rewrite inverse_lagged by assumption.
+    unfold own_force, applied_force, adds_fj. rewrite Hh, Hs, H, Ha. cbn [andb orb negb]. rs. ring.
   Qed.
   Lemma inverse_lagged_T0 cv pre s i1 i2 :
-    cv_samestep cv = false -> cv_kT cv = 0 -> cv_subtract cv = false ->
+    cv_samestep cv = false -> e_apply i1 = true -> cv_kT cv = 0 -> cv_subtract cv = false ->
     cv_inv_ok cell mass (e_pos i1) cv -> (forall a, In a (cv_atoms cv) -> e_force i1 a = v0) ->
     last_ft (snd (erun cv true s (pre ++ [i1; i2]))) = e_fb i1.
   Proof.
-    intros H HT Hs Hok Hz. rewrite inverse_lagged by assumption.
+    intros H Ha HT Hs Hok Hz. rewrite inverse_lagged by assumption.
     unfold own_force, applied_force. rewrite Hs, (cv_fj_T0 cell mass cv (e_pos i1) HT). rs.
-    destruct (cv_hide cv), (adds_fj cv); ring.
+    destruct (cv_hide cv && e_apply i1)%bool, (adds_fj cv (cv_hide cv)); ring.
+  Qed.
+  (* a step at which no bias applies a force to the variable: the report of the next step is the projection of the engine's
+     forces, plus the Jacobian term unless hidden (hidden: nothing was compensated, nothing is added), minus f_old = fb *)
+  Lemma lagged_not_applied cv inc pre s i1 i2 :
+    cv_samestep cv = false -> e_apply i1 = false ->
+    last_ft (snd (erun cv inc s (pre ++ [i1; i2]))) =
+      proj (e_pos i1) cv (e_force i1) + (if cv_hide cv then 0 else fjf (e_pos i1) cv) - (if cv_subtract cv then e_fb i1 else 0).
+  Proof.
+    intros H Ha. rewrite history_lag by exact H. unfold lag_report.
+    rewrite proj_exerted_off by exact Ha. unfold own_force, applied_force, adds_fj. rewrite Ha, andb_false_r.
+    destruct (cv_hide cv); cbn [andb orb negb]; [rewrite orb_true_r|]; cbn [andb negb]; ring.
   Qed.
   (* same-step convention: the engine's force field is exactly the distribution of a variable force f *)
   Lemma inverse_same cv inc pre s i f :
@@ -1211,30 +1232,30 @@ Section Final.
 
   (* subtractAppliedForce: what is reported is the projection of the engine's own forces *)
   Lemma subtract_applied cv pre s i1 i2 :
-    cv_samestep cv = false -> cv_subtract cv = true -> cv_inv_ok cell mass (e_pos i1) cv ->
+    cv_samestep cv = false -> e_apply i1 = true -> cv_subtract cv = true -> cv_inv_ok cell mass (e_pos i1) cv ->
     last_ft (snd (erun cv true s (pre ++ [i1; i2]))) =
       proj (e_pos i1) cv (e_force i1) + (if cv_hide cv then 0 else fjf (e_pos i1) cv).
   Proof.
-    intros H Hs Hok. rewrite history_lag by exact H. unfold lag_report.
-    rewrite proj_exerted by exact Hok. unfold adds_fj. rewrite Hs. destruct (cv_hide cv); cbn [andb orb negb]; ring.
+    intros H Ha Hs Hok. rewrite history_lag by exact H. unfold lag_report.
+    rewrite proj_exerted by assumption. unfold adds_fj. rewrite Hs. destruct (cv_hide cv); cbn [andb orb negb]; ring.
   Qed.
   Lemma without_subtract cv pre s i1 i2 :
-    cv_samestep cv = false -> cv_subtract cv = false -> cv_inv_ok cell mass (e_pos i1) cv ->
+    cv_samestep cv = false -> e_apply i1 = true -> cv_subtract cv = false -> cv_inv_ok cell mass (e_pos i1) cv ->
     last_ft (snd (erun cv true s (pre ++ [i1; i2]))) =
-      proj (e_pos i1) cv (e_force i1) + own_force cell mass cv i1 + (if adds_fj cv then fjf (e_pos i1) cv else 0).
+      proj (e_pos i1) cv (e_force i1) + own_force cell mass cv i1 + (if adds_fj cv (cv_hide cv) then fjf (e_pos i1) cv else 0).
   Proof.
-    intros H Hs Hok. rewrite history_lag by exact H. unfold lag_report.
-    rewrite proj_exerted by exact Hok. rewrite Hs. ring.
+    intros H Ha Hs Hok. rewrite history_lag by exact H. unfold lag_report.
+    rewrite proj_exerted by assumption. rewrite Hs, Ha, andb_true_r. ring.
   Qed.
 
   (* locality at the level of reports *)
   Lemma local_lagged cv inc pre pre' s s' i1 i1' i2 i2' :
-    cv_samestep cv = false -> e_pos i1 = e_pos i1' -> e_fb i1 = e_fb i1' ->
+    cv_samestep cv = false -> e_pos i1 = e_pos i1' -> e_fb i1 = e_fb i1' -> e_apply i1 = e_apply i1' ->
     (forall a, In a (cv_atoms cv) -> e_force i1 a = e_force i1' a) ->
     last_ft (snd (erun cv inc s (pre ++ [i1; i2]))) = last_ft (snd (erun cv inc s' (pre' ++ [i1'; i2']))).
   Proof.
-    intros H Hp Hb HF. rewrite !history_lag by exact H. unfold lag_report, exerted, own_force.
-    rewrite <- Hp, <- Hb. f_equal. f_equal. apply cv_proj_local. intros a Ha.
+    intros H Hp Hb Hap HF. rewrite !history_lag by exact H. unfold lag_report, exerted, own_force.
+    rewrite <- Hp, <- Hb, <- Hap. f_equal. f_equal. apply cv_proj_local. intros a Ha.
     destruct inc; [unfold fadd; rewrite (HF a Ha); reflexivity | exact (HF a Ha)].
   Qed.
   Lemma local_same cv inc pre pre' s s' i i' :
@@ -1549,39 +1570,45 @@ Lemma thm_pm1_combination : forall (cell : option RV) (mass : nat -> R) (cv : co
     tsum Rops (map (fun p => cvc_jd Rops PI cell mass pos (fst p) * snd p / ofnat Rops (length (cv_comps cv))) (cv_comps cv)) * cv_kT cv.
 Proof. exact pm1_combination. Qed.
 Lemma thm_inverse_lagged : forall (cell : option RV) (mass : nat -> R) (cv : colvar) (pre : list einput) (s : estate) (i1 i2 : einput),
-  cv_samestep cv = false ->
+  cv_samestep cv = false -> e_apply i1 = true ->
   Forall (fun p => forall fc, cvc_ft Rops PI cell mass (e_pos i1) (fst p) (cvc_apply Rops PI cell mass (e_pos i1) (fst p) fc) = fc) (cv_comps cv) ->
   ForallOrdPairs (fun p q => forall a, In a (cvc_atoms (fst p)) -> ~ In a (cvc_atoms (fst q))) (cv_comps cv) ->
   cv_sqnorm Rops cv <> 0 ->
   (forall a, In a (cv_atoms cv) -> e_force i1 a = vzero Rops) ->
   last_ft (snd (eng_run Rops PI cell mass cv true s (pre ++ [i1; i2]))) =
-    applied_force Rops cv (e_fb i1) (cv_fj Rops PI cell mass (e_pos i1) cv) + (if adds_fj cv then cv_fj Rops PI cell mass (e_pos i1) cv else 0)
-    - (if cv_subtract cv then applied_force Rops cv (e_fb i1) (cv_fj Rops PI cell mass (e_pos i1) cv) else 0).
-Proof. intros cell mass cv pre s i1 i2 H Hi Hd Hs Hz. assert (Hok : cv_inv_ok cell mass (e_pos i1) cv) by (repeat split; assumption). exact (inverse_lagged cell mass cv pre s i1 i2 H Hok Hz). Qed.
+    applied_force Rops cv (e_apply i1) (e_fb i1) (cv_fj Rops PI cell mass (e_pos i1) cv) + (if adds_fj cv (cv_hide cv) then cv_fj Rops PI cell mass (e_pos i1) cv else 0)
+    - (if cv_subtract cv then applied_force Rops cv (e_apply i1) (e_fb i1) (cv_fj Rops PI cell mass (e_pos i1) cv) else 0).
+Proof. intros cell mass cv pre s i1 i2 H Ha Hi Hd Hs Hz. assert (Hok : cv_inv_ok cell mass (e_pos i1) cv) by (repeat split; assumption). exact (inverse_lagged cell mass cv pre s i1 i2 H Ha Hok Hz). Qed.
 Lemma thm_inverse_lagged_jacobian : forall (cell : option RV) (mass : nat -> R) (cv : colvar) (pre : list einput) (s : estate) (i1 i2 : einput),
-  cv_samestep cv = false -> cv_hide cv = false -> cv_subtract cv = false ->
+  cv_samestep cv = false -> e_apply i1 = true -> cv_hide cv = false -> cv_subtract cv = false ->
   Forall (fun p => forall fc, cvc_ft Rops PI cell mass (e_pos i1) (fst p) (cvc_apply Rops PI cell mass (e_pos i1) (fst p) fc) = fc) (cv_comps cv) ->
   ForallOrdPairs (fun p q => forall a, In a (cvc_atoms (fst p)) -> ~ In a (cvc_atoms (fst q))) (cv_comps cv) ->
   cv_sqnorm Rops cv <> 0 ->
   (forall a, In a (cv_atoms cv) -> e_force i1 a = vzero Rops) ->
   last_ft (snd (eng_run Rops PI cell mass cv true s (pre ++ [i1; i2]))) = e_fb i1 + cv_fj Rops PI cell mass (e_pos i1) cv.
-Proof. intros cell mass cv pre s i1 i2 H Hh Hsb Hi Hd Hs Hz. assert (Hok : cv_inv_ok cell mass (e_pos i1) cv) by (repeat split; assumption). exact (inverse_lagged_jacobian cell mass cv pre s i1 i2 H Hh Hsb Hok Hz). Qed.
+Proof. intros cell mass cv pre s i1 i2 H Ha Hh Hsb Hi Hd Hs Hz. assert (Hok : cv_inv_ok cell mass (e_pos i1) cv) by (repeat split; assumption). exact (inverse_lagged_jacobian cell mass cv pre s i1 i2 H Ha Hh Hsb Hok Hz). Qed.
 Lemma thm_inverse_lagged_hidden : forall (cell : option RV) (mass : nat -> R) (cv : colvar) (pre : list einput) (s : estate) (i1 i2 : einput),
-  cv_samestep cv = false -> cv_hide cv = true -> cv_subtract cv = false ->
+  cv_samestep cv = false -> e_apply i1 = true -> cv_hide cv = true -> cv_subtract cv = false ->
   Forall (fun p => forall fc, cvc_ft Rops PI cell mass (e_pos i1) (fst p) (cvc_apply Rops PI cell mass (e_pos i1) (fst p) fc) = fc) (cv_comps cv) ->
   ForallOrdPairs (fun p q => forall a, In a (cvc_atoms (fst p)) -> ~ In a (cvc_atoms (fst q))) (cv_comps cv) ->
   cv_sqnorm Rops cv <> 0 ->
   (forall a, In a (cv_atoms cv) -> e_force i1 a = vzero Rops) ->
   last_ft (snd (eng_run Rops PI cell mass cv true s (pre ++ [i1; i2]))) = e_fb i1.
-Proof. intros cell mass cv pre s i1 i2 H Hh Hsb Hi Hd Hs Hz. assert (Hok : cv_inv_ok cell mass (e_pos i1) cv) by (repeat split; assumption). exact (inverse_lagged_hidden cell mass cv pre s i1 i2 H Hh Hsb Hok Hz). Qed.
+Proof. intros cell mass cv pre s i1 i2 H Ha Hh Hsb Hi Hd Hs Hz. assert (Hok : cv_inv_ok cell mass (e_pos i1) cv) by (repeat split; assumption). exact (inverse_lagged_hidden cell mass cv pre s i1 i2 H Ha Hh Hsb Hok Hz). Qed.
 Lemma thm_inverse_lagged_T0 : forall (cell : option RV) (mass : nat -> R) (cv : colvar) (pre : list einput) (s : estate) (i1 i2 : einput),
-  cv_samestep cv = false -> cv_kT cv = 0 -> cv_subtract cv = false ->
+  cv_samestep cv = false -> e_apply i1 = true -> cv_kT cv = 0 -> cv_subtract cv = false ->
   Forall (fun p => forall fc, cvc_ft Rops PI cell mass (e_pos i1) (fst p) (cvc_apply Rops PI cell mass (e_pos i1) (fst p) fc) = fc) (cv_comps cv) ->
   ForallOrdPairs (fun p q => forall a, In a (cvc_atoms (fst p)) -> ~ In a (cvc_atoms (fst q))) (cv_comps cv) ->
   cv_sqnorm Rops cv <> 0 ->
   (forall a, In a (cv_atoms cv) -> e_force i1 a = vzero Rops) ->
   last_ft (snd (eng_run Rops PI cell mass cv true s (pre ++ [i1; i2]))) = e_fb i1.
-Proof. intros cell mass cv pre s i1 i2 H HT Hsb Hi Hd Hs Hz. assert (Hok : cv_inv_ok cell mass (e_pos i1) cv) by (repeat split; assumption). exact (inverse_lagged_T0 cell mass cv pre s i1 i2 H HT Hsb Hok Hz). Qed.
+Proof. intros cell mass cv pre s i1 i2 H Ha HT Hsb Hi Hd Hs Hz. assert (Hok : cv_inv_ok cell mass (e_pos i1) cv) by (repeat split; assumption). exact (inverse_lagged_T0 cell mass cv pre s i1 i2 H Ha HT Hsb Hok Hz). Qed.
+Lemma thm_lagged_not_applied : forall (cell : option RV) (mass : nat -> R) (cv : colvar) (inc : bool) (pre : list einput) (s : estate) (i1 i2 : einput),
+  cv_samestep cv = false -> e_apply i1 = false ->
+  last_ft (snd (eng_run Rops PI cell mass cv inc s (pre ++ [i1; i2]))) =
+    cv_proj Rops PI cell mass (e_pos i1) cv (e_force i1) + (if cv_hide cv then 0 else cv_fj Rops PI cell mass (e_pos i1) cv)
+    - (if cv_subtract cv then e_fb i1 else 0).
+Proof. exact lagged_not_applied. Qed.
 Lemma thm_inverse_same_step : forall (cell : option RV) (mass : nat -> R) (cv : colvar) (inc : bool) (pre : list einput) (s : estate) (i : einput) (f : R),
   cv_samestep cv = true ->
   Forall (fun p => forall fc, cvc_ft Rops PI cell mass (e_pos i) (fst p) (cvc_apply Rops PI cell mass (e_pos i) (fst p) fc) = fc) (cv_comps cv) ->
@@ -1606,7 +1633,7 @@ Lemma thm_local_variable : forall (cell : option RV) (mass : nat -> R) (pos : RF
   (forall a, In a (cv_atoms cv) -> F a = G a) -> cv_proj Rops PI cell mass pos cv F = cv_proj Rops PI cell mass pos cv G.
 Proof. exact cv_proj_local. Qed.
 Lemma thm_local_report_lagged : forall (cell : option RV) (mass : nat -> R) (cv : colvar) (inc : bool) (pre pre' : list einput) (s s' : estate) (i1 i1' i2 i2' : einput),
-  cv_samestep cv = false -> e_pos i1 = e_pos i1' -> e_fb i1 = e_fb i1' ->
+  cv_samestep cv = false -> e_pos i1 = e_pos i1' -> e_fb i1 = e_fb i1' -> e_apply i1 = e_apply i1' ->
   (forall a, In a (cv_atoms cv) -> e_force i1 a = e_force i1' a) ->
   last_ft (snd (eng_run Rops PI cell mass cv inc s (pre ++ [i1; i2]))) = last_ft (snd (eng_run Rops PI cell mass cv inc s' (pre' ++ [i1'; i2']))).
 Proof. exact local_lagged. Qed.
@@ -1616,29 +1643,29 @@ Lemma thm_local_report_same_step : forall (cell : option RV) (mass : nat -> R) (
   last_ft (snd (eng_run Rops PI cell mass cv inc s (pre ++ [i]))) = last_ft (snd (eng_run Rops PI cell mass cv inc s' (pre' ++ [i']))).
 Proof. exact local_same. Qed.
 Lemma thm_subtract_applied : forall (cell : option RV) (mass : nat -> R) (cv : colvar) (pre : list einput) (s : estate) (i1 i2 : einput),
-  cv_samestep cv = false -> cv_subtract cv = true ->
+  cv_samestep cv = false -> e_apply i1 = true -> cv_subtract cv = true ->
   Forall (fun p => forall fc, cvc_ft Rops PI cell mass (e_pos i1) (fst p) (cvc_apply Rops PI cell mass (e_pos i1) (fst p) fc) = fc) (cv_comps cv) ->
   ForallOrdPairs (fun p q => forall a, In a (cvc_atoms (fst p)) -> ~ In a (cvc_atoms (fst q))) (cv_comps cv) ->
   cv_sqnorm Rops cv <> 0 ->
   last_ft (snd (eng_run Rops PI cell mass cv true s (pre ++ [i1; i2]))) =
     cv_proj Rops PI cell mass (e_pos i1) cv (e_force i1) + (if cv_hide cv then 0 else cv_fj Rops PI cell mass (e_pos i1) cv).
-Proof. intros cell mass cv pre s i1 i2 H Hsb Hi Hd Hs. assert (Hok : cv_inv_ok cell mass (e_pos i1) cv) by (repeat split; assumption). exact (subtract_applied cell mass cv pre s i1 i2 H Hsb Hok). Qed.
+Proof. intros cell mass cv pre s i1 i2 H Ha Hsb Hi Hd Hs. assert (Hok : cv_inv_ok cell mass (e_pos i1) cv) by (repeat split; assumption). exact (subtract_applied cell mass cv pre s i1 i2 H Ha Hsb Hok). Qed.
 Lemma thm_without_subtract : forall (cell : option RV) (mass : nat -> R) (cv : colvar) (pre : list einput) (s : estate) (i1 i2 : einput),
-  cv_samestep cv = false -> cv_subtract cv = false ->
+  cv_samestep cv = false -> e_apply i1 = true -> cv_subtract cv = false ->
   Forall (fun p => forall fc, cvc_ft Rops PI cell mass (e_pos i1) (fst p) (cvc_apply Rops PI cell mass (e_pos i1) (fst p) fc) = fc) (cv_comps cv) ->
   ForallOrdPairs (fun p q => forall a, In a (cvc_atoms (fst p)) -> ~ In a (cvc_atoms (fst q))) (cv_comps cv) ->
   cv_sqnorm Rops cv <> 0 ->
   last_ft (snd (eng_run Rops PI cell mass cv true s (pre ++ [i1; i2]))) =
-    cv_proj Rops PI cell mass (e_pos i1) cv (e_force i1) + applied_force Rops cv (e_fb i1) (cv_fj Rops PI cell mass (e_pos i1) cv)
-    + (if adds_fj cv then cv_fj Rops PI cell mass (e_pos i1) cv else 0).
-Proof. intros cell mass cv pre s i1 i2 H Hsb Hi Hd Hs. assert (Hok : cv_inv_ok cell mass (e_pos i1) cv) by (repeat split; assumption). exact (without_subtract cell mass cv pre s i1 i2 H Hsb Hok). Qed.
+    cv_proj Rops PI cell mass (e_pos i1) cv (e_force i1) + applied_force Rops cv (e_apply i1) (e_fb i1) (cv_fj Rops PI cell mass (e_pos i1) cv)
+    + (if adds_fj cv (cv_hide cv) then cv_fj Rops PI cell mass (e_pos i1) cv else 0).
+Proof. intros cell mass cv pre s i1 i2 H Ha Hsb Hi Hd Hs. assert (Hok : cv_inv_ok cell mass (e_pos i1) cv) by (repeat split; assumption). exact (without_subtract cell mass cv pre s i1 i2 H Ha Hsb Hok). Qed.
 Lemma thm_timing : forall (cell : option RV) (mass : nat -> R) (cv : colvar) (inc : bool) (i1 i2 : einput),
   cv_samestep cv = false -> forall (pre : list einput) (s : estate),
   last_ft (snd (eng_run Rops PI cell mass cv inc s (pre ++ [i1; i2]))) =
     cv_proj Rops PI cell mass (e_pos i1) cv
-      (if inc then fadd Rops (e_force i1) (cv_apply Rops PI cell mass (e_pos i1) cv (applied_force Rops cv (e_fb i1) (cv_fj Rops PI cell mass (e_pos i1) cv))) else e_force i1)
-    + (if adds_fj cv then cv_fj Rops PI cell mass (e_pos i1) cv else 0)
-    - (if cv_subtract cv then applied_force Rops cv (e_fb i1) (cv_fj Rops PI cell mass (e_pos i1) cv) else 0).
+      (if inc then fadd Rops (e_force i1) (if e_apply i1 then cv_apply Rops PI cell mass (e_pos i1) cv (applied_force Rops cv (e_apply i1) (e_fb i1) (cv_fj Rops PI cell mass (e_pos i1) cv)) else fzero Rops) else e_force i1)
+    + (if adds_fj cv (cv_hide cv && e_apply i1) then cv_fj Rops PI cell mass (e_pos i1) cv else 0)
+    - (if cv_subtract cv then applied_force Rops cv (e_apply i1) (e_fb i1) (cv_fj Rops PI cell mass (e_pos i1) cv) else 0).
 Proof. exact history_lag. Qed.
 Lemma thm_timing_same_step : forall (cell : option RV) (mass : nat -> R) (cv : colvar) (inc : bool) (i : einput),
   cv_samestep cv = true -> forall (pre : list einput) (s : estate),
@@ -1684,36 +1711,36 @@ Lemma ex_split_ok pos h sb sm kT :
   cv_sqnorm Rops (ex_cv h sb sm kT) <> 0.
 Proof. exact (ex_cv_ok pos h sb sm kT). Qed.
 Lemma ex_lagged_jacobian pre s pos fb1 i2 kT :
-  last_ft (snd (eng_run Rops PI None ex_mass (ex_cv false false false kT) true s (pre ++ [mkEinput pos (fzero Rops) fb1; i2])))
+  last_ft (snd (eng_run Rops PI None ex_mass (ex_cv false false false kT) true s (pre ++ [mkEinput pos (fzero Rops) fb1 true; i2])))
   = fb1 + cv_fj Rops PI None ex_mass pos (ex_cv false false false kT).
 Proof.
   destruct (ex_split_ok pos false false false kT) as (A & B & C).
-  exact (thm_inverse_lagged_jacobian None ex_mass (ex_cv false false false kT) pre s (mkEinput pos (fzero Rops) fb1) i2 eq_refl eq_refl eq_refl A B C (fun _ _ => eq_refl)).
+  exact (thm_inverse_lagged_jacobian None ex_mass (ex_cv false false false kT) pre s (mkEinput pos (fzero Rops) fb1 true) i2 eq_refl eq_refl eq_refl eq_refl A B C (fun _ _ => eq_refl)).
 Qed.
 Lemma ex_lagged_hidden pre s pos fb1 i2 kT :
-  last_ft (snd (eng_run Rops PI None ex_mass (ex_cv true false false kT) true s (pre ++ [mkEinput pos (fzero Rops) fb1; i2]))) = fb1.
+  last_ft (snd (eng_run Rops PI None ex_mass (ex_cv true false false kT) true s (pre ++ [mkEinput pos (fzero Rops) fb1 true; i2]))) = fb1.
 Proof.
   destruct (ex_split_ok pos true false false kT) as (A & B & C).
-  exact (thm_inverse_lagged_hidden None ex_mass (ex_cv true false false kT) pre s (mkEinput pos (fzero Rops) fb1) i2 eq_refl eq_refl eq_refl A B C (fun _ _ => eq_refl)).
+  exact (thm_inverse_lagged_hidden None ex_mass (ex_cv true false false kT) pre s (mkEinput pos (fzero Rops) fb1 true) i2 eq_refl eq_refl eq_refl eq_refl A B C (fun _ _ => eq_refl)).
 Qed.
 Lemma ex_lagged_T0 pre s pos fb1 i2 h :
-  last_ft (snd (eng_run Rops PI None ex_mass (ex_cv h false false 0) true s (pre ++ [mkEinput pos (fzero Rops) fb1; i2]))) = fb1.
+  last_ft (snd (eng_run Rops PI None ex_mass (ex_cv h false false 0) true s (pre ++ [mkEinput pos (fzero Rops) fb1 true; i2]))) = fb1.
 Proof.
   destruct (ex_split_ok pos h false false 0) as (A & B & C).
-  exact (thm_inverse_lagged_T0 None ex_mass (ex_cv h false false 0) pre s (mkEinput pos (fzero Rops) fb1) i2 eq_refl eq_refl eq_refl A B C (fun _ _ => eq_refl)).
+  exact (thm_inverse_lagged_T0 None ex_mass (ex_cv h false false 0) pre s (mkEinput pos (fzero Rops) fb1 true) i2 eq_refl eq_refl eq_refl eq_refl A B C (fun _ _ => eq_refl)).
 Qed.
 Lemma ex_same_step inc pre s pos fb f h sb kT :
   last_ft (snd (eng_run Rops PI None ex_mass (ex_cv h sb true kT) inc s
-                  (pre ++ [mkEinput pos (cv_apply Rops PI None ex_mass pos (ex_cv h sb true kT) f) fb])))
+                  (pre ++ [mkEinput pos (cv_apply Rops PI None ex_mass pos (ex_cv h sb true kT) f) fb true])))
   = f + (if h then 0 else cv_fj Rops PI None ex_mass pos (ex_cv h sb true kT)).
 Proof.
   destruct (ex_split_ok pos h sb true kT) as (A & B & C).
-  exact (thm_inverse_same_step None ex_mass (ex_cv h sb true kT) inc pre s (mkEinput pos (cv_apply Rops PI None ex_mass pos (ex_cv h sb true kT) f) fb) f eq_refl A B C (fun _ _ => eq_refl)).
+  exact (thm_inverse_same_step None ex_mass (ex_cv h sb true kT) inc pre s (mkEinput pos (cv_apply Rops PI None ex_mass pos (ex_cv h sb true kT) f) fb true) f eq_refl A B C (fun _ _ => eq_refl)).
 Qed.
 Lemma ex_subtract pre s pos F fb1 i2 h kT :
-  last_ft (snd (eng_run Rops PI None ex_mass (ex_cv h true false kT) true s (pre ++ [mkEinput pos F fb1; i2])))
+  last_ft (snd (eng_run Rops PI None ex_mass (ex_cv h true false kT) true s (pre ++ [mkEinput pos F fb1 true; i2])))
   = cv_proj Rops PI None ex_mass pos (ex_cv h true false kT) F + (if h then 0 else cv_fj Rops PI None ex_mass pos (ex_cv h true false kT)).
 Proof.
   destruct (ex_split_ok pos h true false kT) as (A & B & C).
-  exact (thm_subtract_applied None ex_mass (ex_cv h true false kT) pre s (mkEinput pos F fb1) i2 eq_refl eq_refl A B C).
+  exact (thm_subtract_applied None ex_mass (ex_cv h true false kT) pre s (mkEinput pos F fb1 true) i2 eq_refl eq_refl eq_refl A B C).
 Qed.
